@@ -13,7 +13,7 @@
 From ClapModel Require Import Base.Bytes Base.Machine Parse.Cmd Parse.Build Parse.Valid Parse.Matcher Parse.Errors Parse.Validator Parse.Parser.
 From ClapModel Require Import ParseProofs.Spelling.
 From ClapModel Require ParseProofs.Dispatch ParseProofs.ChainWide Complete.EngineProofs Complete.EngineLevel.
-From ClapModel Require Import Gen.HelpTables Help.UsageModel Help.HelpModel Help.HelpReqs Help.HelpProofs Help.HelpLevel Help.HelpSpecVals Help.HelpDispatch Help.HelpUsage Help.HelpGlobals Help.HelpTemplate Help.HelpHeadings Help.HelpRefsBuild Help.HelpFlagGen Help.HelpUnbuilt Help.HelpChainWide Help.HelpSubcommand.
+From ClapModel Require Import Gen.HelpTables Help.UsageModel Help.HelpModel Help.HelpReqs Help.HelpProofs Help.HelpLevel Help.HelpSpecVals Help.HelpDispatch Help.HelpUsage Help.HelpGlobals Help.HelpTemplate Help.HelpHeadings Help.HelpRefsBuild Help.HelpFlagGen Help.HelpUnbuilt Help.HelpChainWide Help.HelpSubcommand Help.HelpUsageExact.
 From RecordUpdate Require Import RecordSet.
 Import RecordSetNotations.
 Open Scope N_scope.
@@ -712,3 +712,62 @@ Theorem C12_help_subcommand_infer_example :
      = OErr (unknown_sub_err (build_self hs_wide) [100; 101; 108]).
 Proof. exact hs_hyps_infer. Qed.
 Print Assumptions C12_help_subcommand_infer_example.
+
+(** ---- fourth pass: [C12_usage_hides_hidden] at the boundary of the recorded finding C12-usage-hidden-group-member ---- *)
+
+(** [mentions c x i]: the usage piece [x] = (id, text) is the piece of the argument [i], or the piece of a group whose
+    unrolled members -- what [format_group] prints between [<] and [>] -- contain [i].
+    Class: distinct argument ids, no argument id is a group id ([ids_disjoint]), built arguments, [refs_ok]; the argument is
+    [hide]n, (R) NOT in the unrolled requirement closure [usage_reqs] (not required, not reached from a required argument
+    or required group through unconditional [requires] rules) and (G) a member of NO LISTED group ([usage_members]: the
+    members of the groups among the requirements).  Then NO piece mentions it, in either form of the usage line. *)
+Theorem C12_usage_hides_hidden_exact : forall c fo items a,
+  NoDup (map ha_id (hc_args c)) -> ids_disjoint c = true -> args_ok c -> refs_ok c = true -> usage_arg_items c fo = Some items ->
+  In a (hc_args c) -> ha_hide a = true ->
+  ~ In (ha_id a) (usage_reqs c) -> mem_id (ha_id a) (usage_members c) = false ->
+  forall x, In x items -> ~ mentions c x (ha_id a).
+Proof. exact usage_hides_hidden_exact. Qed.
+Print Assumptions C12_usage_hides_hidden_exact.
+
+(** the round-3 class ([req_srcb] = false: named by no rule at all) lies inside (R) *)
+Theorem C12_usage_req_srcb_inside : forall c i, req_srcb c i = false -> ~ In i (usage_reqs c).
+Proof. exact req_srcb_not_in_reqs. Qed.
+Print Assumptions C12_usage_req_srcb_inside.
+
+Theorem C12_usage_hides_hidden_exact_satisfiable :
+  NoDup (map ha_id (hc_args rq_built)) /\ ids_disjoint rq_built = true /\ args_ok rq_built /\ refs_ok rq_built = true
+  /\ (exists items, usage_arg_items rq_built false = Some items) /\ (exists items, usage_arg_items rq_built true = Some items)
+  /\ In (rq_arg 4) (hc_args rq_built) /\ ha_hide (rq_arg 4) = true
+  /\ ~ In (ha_id (rq_arg 4)) (usage_reqs rq_built) /\ mem_id (ha_id (rq_arg 4)) (usage_members rq_built) = false
+  /\ In (rq_arg 6) (hc_args rq_built) /\ ha_hide (rq_arg 6) = true /\ ha_last (rq_arg 6) = true
+  /\ ~ In (ha_id (rq_arg 6)) (usage_reqs rq_built) /\ mem_id (ha_id (rq_arg 6)) (usage_members rq_built) = false.
+Proof. exact exact_hyps. Qed.
+Print Assumptions C12_usage_hides_hidden_exact_satisfiable.
+
+(** the boundary is sharp on both sides; each witness satisfies every other hypothesis of the theorem.
+    (G) dropped = the recorded finding: `--z` hidden, optional, not among the requirements, member of the listed group:
+    the piece `<--a|--z>` mentions it *)
+Theorem C12_usage_hidden_listed_member_mentioned :
+  exists a items x,
+    NoDup (map ha_id (hc_args hg_built)) /\ ids_disjoint hg_built = true /\ args_ok hg_built /\ refs_ok hg_built = true
+    /\ usage_arg_items hg_built false = Some items
+    /\ In a (hc_args hg_built) /\ ha_hide a = true /\ ha_required a = false /\ ha_long a = Some [122]
+    /\ ~ In (ha_id a) (usage_reqs hg_built)
+    /\ mem_id (ha_id a) (usage_members hg_built) = true
+    /\ In x items /\ mentions hg_built x (ha_id a) /\ snd x = [60; 45; 45; 97; 124; 45; 45; 122; 62].
+Proof. exact hidden_listed_member_mentioned. Qed.
+Print Assumptions C12_usage_hidden_listed_member_mentioned.
+
+(** (R) dropped: `--z` hidden, [required] off, member of no group, but the target of an unconditional [requires] rule of
+    the required `--r`: among the requirements, printed on its own -- `p --z --r <r>` *)
+Theorem C12_usage_hidden_required_target_mentioned :
+  exists a items x,
+    NoDup (map ha_id (hc_args rt_built)) /\ ids_disjoint rt_built = true /\ args_ok rt_built /\ refs_ok rt_built = true
+    /\ usage_arg_items rt_built false = Some items
+    /\ In a (hc_args rt_built) /\ ha_hide a = true /\ ha_required a = false /\ ha_long a = Some [122]
+    /\ In (ha_id a) (usage_reqs rt_built)
+    /\ mem_id (ha_id a) (usage_members rt_built) = false
+    /\ In x items /\ mentions rt_built x (ha_id a) /\ snd x = [45; 45; 122]
+    /\ usage_pieces rt_built = Some [[112]; [45; 45; 122]; [45; 45; 114; 32; 60; 114; 62]].
+Proof. exact hidden_required_target_mentioned. Qed.
+Print Assumptions C12_usage_hidden_required_target_mentioned.
